@@ -788,6 +788,64 @@ pub fn completeness(
                 }
             }
         }
+        // Every declared virtual function has its slot in the generated vftable struct, with the
+        // owner as receiver and the declared parameter and return types.
+        for d in &m.definitions {
+            let pyxis::grammar::ItemDefinitionInner::Type(t) = &d.inner else {
+                continue;
+            };
+            for s in &t.statements {
+                let pyxis::grammar::TypeField::Vftable(fs) = &s.field else {
+                    continue;
+                };
+                let table = format!("{}Vftable", d.name.as_str());
+                let Some(slots) = inv.struct_fields.get(&table) else {
+                    return Err((
+                        "item-left-out".into(),
+                        format!("{out_rel}: no `{table}` struct for the vftable block of `{}`", d.name),
+                    ));
+                };
+                for f in fs {
+                    let mut args: Vec<String> = vec![];
+                    for a in &f.arguments {
+                        match a {
+                            pyxis::grammar::Argument::ConstSelf => {
+                                args.push(format!("*const {}", d.name.as_str()))
+                            }
+                            pyxis::grammar::Argument::MutSelf => {
+                                args.push(format!("*mut {}", d.name.as_str()))
+                            }
+                            pyxis::grammar::Argument::Named(_, t) => {
+                                args.push(normalise_grammar_type(t))
+                            }
+                        }
+                    }
+                    let want = format!(
+                        "fn({}){}",
+                        args.join(", "),
+                        f.return_type
+                            .as_ref()
+                            .map(|t| format!(" -> {}", normalise_grammar_type(t)))
+                            .unwrap_or_default()
+                    );
+                    match slots.iter().find(|(n, _)| n == f.name.as_str()) {
+                        Some((_, got)) if *got == want => {}
+                        Some((_, got)) => {
+                            return Err((
+                                "vftable-slot-type-changed".into(),
+                                format!("{out_rel}: `{table}::{}` declared {want} emitted {got}", f.name),
+                            ))
+                        }
+                        None => {
+                            return Err((
+                                "vftable-slot-left-out".into(),
+                                format!("{out_rel}: `{table}` has no slot `{}`", f.name),
+                            ))
+                        }
+                    }
+                }
+            }
+        }
         // Every named field of every declared type is there with the declared type.
         for d in &m.definitions {
             let pyxis::grammar::ItemDefinitionInner::Type(t) = &d.inner else {
